@@ -466,14 +466,15 @@ static int corr(uint64_t seed, const std::string& tier, const std::string& outdi
     }
     // (iv) keyword level: the real Parser::parseString on one keyword (plus a sentinel keyword)
     // against clean -> lines -> RawKeyword state machine -> ParserKeyword::parse of the model.
-    struct KwS { std::string name; char st; bool raw; std::string mn; size_t size; bool alt, dbl; std::string schemas; std::vector<std::vector<ItemS>> recs; };
+    struct KwS { std::string name; char st; bool raw; std::string mn; size_t size; bool alt, dbl; std::string schemas; std::vector<std::vector<ItemS>> recs;
+                 std::string dimsKw; int dimsItem = -1; size_t nrecSchemas = 0; };
     std::vector<KwS> kws;
     static const char* KW2[] = {"TABDIMS", "DIMENS", "EQLDIMS", "WELLDIMS", "REGDIMS", "WELSPECS", "COMPDAT", "WCONPROD", "WCONINJE",
         "GRUPTREE", "PORO", "PERMX", "SATNUM", "ACTNUM", "DX", "TSTEP", "UDQ", "WCONHIST", "WELTARG", "GCONPROD", "START",
         "MULTIPLY", "EQUALS", "COPY", "WSEGVALV", "TUNING", "ENDSCALE", "GRIDOPTS", "RPTRST", "WLIST", "UDQDIMS", "NETBALAN",
         "BRANPROP", "NODEPROP", "WTEST", "GLIFTOPT", "WLIFTOPT", "VFPPROD", "VFPINJ", "MULTREGT", "WOPR", "FOPR", "GOPR", "BRINE",
         "OIL", "WATER", "RUNSPEC", "DATES", "COMPORD", "WPIMULT", "WELOPEN", "GEFAC", "WEFAC", "ACTDIMS", "MINPV", "PINCH",
-        "UDT", "CECONT", "GECONT", "GCUTBACT", "MPFNNC", "FAULTS", "MULTFLT", "THPRES", "RPTSCHED", "RPTSOL", "NEXTSTEP", "DRSDT", "WRFTPLT", "GCONINJE", "WGRUPCON", "CSKIN"};
+        "UDT", "CECONT", "GECONT", "GCUTBACT", "MPFNNC", "FAULTS", "MULTFLT", "THPRES", "PVTO", "PVTG", "EQUIL", "PVTW", "DENSITY", "SWOF", "SGOF", "PVDG", "PVDO", "STOG", "PVTWSALT", "RPTSCHED", "RPTSOL", "NEXTSTEP", "DRSDT", "WRFTPLT", "GCONINJE", "WGRUPCON", "CSKIN"};
     for (const char* name : KW2) {
         if (!parser.isRecognizedKeyword(name)) continue;
         const auto& kw = parser.getKeyword(name);
@@ -484,6 +485,25 @@ static int corr(uint64_t seed, const std::string& tier, const std::string& outdi
         case Opm::SLASH_TERMINATED: k.st = 'S'; break;
         case Opm::UNKNOWN: k.st = 'U'; break;
         case Opm::DOUBLE_SLASH_TERMINATED: k.st = 'D'; break;
+        case Opm::OTHER_KEYWORD_IN_DECK: {
+            // sized by an item of another keyword: the harness writes that keyword in front
+            // and hands the resulting target size to the model (newRawKeyword is not modelled)
+            const auto& ks = kw.getKeywordSize();
+            k.st = 0;
+            if (ks.size_shift() != 0 || !parser.isRecognizedKeyword(ks.keyword())) break;
+            const auto& dk = parser.getKeyword(ks.keyword());
+            if (dk.getSizeType() != Opm::FIXED || dk.getFixedSize() != 1) break;
+            const auto& drec = dk.getRecord(0);
+            int idx = 0, found = -1;
+            for (const auto& di : drec) { if (di.name() == ks.item()) found = idx; ++idx; }
+            if (found < 0 || found > 3) break;
+            bool intsBefore = true; idx = 0;
+            for (const auto& di : drec) { if (idx <= found && di.dataType() != Opm::type_tag::integer) intsBefore = false; ++idx; }
+            if (!intsBefore) break;
+            k.dimsKw = ks.keyword(); k.dimsItem = found;
+            k.st = kw.isTableCollection() ? 'T' : 'F';
+            if (kw.min_size().has_value()) k.mn = std::to_string(*kw.min_size());
+            break; }
         default:
             if (kw.getSizeType() != Opm::FIXED && !kw.hasFixedSize()) { k.st = 0; break; }
             if (kw.getSizeType() == Opm::SPECIAL_CASE_ROCK || kw.getSizeType() == Opm::FIXED_CODE) { k.st = 0; break; }
@@ -503,6 +523,7 @@ static int corr(uint64_t seed, const std::string& tier, const std::string& outdi
         }
         if (!ok) { sink.count("kw.skipped"); continue; }
         k.schemas = k.recs.empty() ? "none" : sch;
+        k.nrecSchemas = k.recs.size();
         kws.push_back(k);
         sink.count(std::string("kw.class.") + k.st + (k.raw ? "raw" : "") + (k.dbl ? "dbl" : "") + (k.alt ? "alt" : ""));
     }
@@ -527,16 +548,33 @@ static int corr(uint64_t seed, const std::string& tier, const std::string& outdi
             if (r.coin(1, 8)) rec += r.coin() ? "\n" : " \t -- only a comment\n";
             return rec;
         };
-        std::string text;
+        std::string text, prefix;
+        size_t targetSize = k.size;
+        if (!k.dimsKw.empty()) {
+            int val = r.range(1, 3);
+            prefix = k.dimsKw + "\n";
+            for (int i = 0; i < k.dimsItem; ++i) prefix += " " + std::to_string(r.range(1, 3));
+            prefix += " " + std::to_string(val) + " /\n";
+            targetSize = static_cast<size_t>(val);
+            if (k.alt) targetSize *= k.nrecSchemas;
+        }
         if (r.coin(1, 6)) text += "\n";
         size_t nrec = 0;
         switch (k.st) {
-        case 'F': nrec = k.size; if (r.coin(1, 10) && nrec > 0) --nrec; else if (r.coin(1, 20)) ++nrec; break;
+        case 'T': nrec = targetSize; break;
+        case 'F': nrec = targetSize; if (r.coin(1, 10) && nrec > 0) --nrec; else if (r.coin(1, 20)) ++nrec; break;
         case 'S': nrec = r.range(0, 3); break;
         case 'U': nrec = r.range(1, 3); break;
         default: nrec = r.range(1, 4);
         }
         for (size_t i = 0; i < nrec; ++i) {
+            if (k.st == 'T') {
+                // one table: a few records, then the table terminator
+                int nr = r.range(1, 3);
+                for (int j = 0; j < nr; ++j) text += oneRecord(j == 0 ? 0 : 1);
+                if (!r.coin(1, 12)) text += "/\n";
+                continue;
+            }
             text += oneRecord(i);
             if (k.st == 'D' && r.coin(1, 3)) text += "/\n";
         }
@@ -567,16 +605,17 @@ static int corr(uint64_t seed, const std::string& tier, const std::string& outdi
         {
             Opm::ParseContext ctx; Opm::ErrorGuard errors;
             try {
-                auto deck = parser.parseString(k.name + "\n" + text, ctx, errors);
+                auto deck = parser.parseString(prefix + k.name + "\n" + text, ctx, errors);
                 errors.clear();
                 std::string next;
-                bool good = deck.size() >= 1 && deck[0].name() == k.name;
-                if (good && deck.size() == 1) next = "-";
-                else if (good && deck.size() == 2 && deck[1].name() == sentinel) next = hex(sentinel);
+                const size_t at = prefix.empty() ? 0 : 1;
+                bool good = deck.size() >= at + 1 && deck[at].name() == k.name && (at == 0 || deck[0].name() == k.dimsKw);
+                if (good && deck.size() == at + 1) next = "-";
+                else if (good && deck.size() == at + 2 && deck[at + 1].name() == sentinel) next = hex(sentinel);
                 else good = false;
                 if (!good) ans = "err";
                 else {
-                    const auto& dk = deck[0];
+                    const auto& dk = deck[at];
                     std::string recs;
                     for (size_t i = 0; i < dk.size(); ++i) { if (i) recs += "|"; recs += dumpRecord(dk.getRecord(i), false); }
                     if (dk.size() == 0) recs = "none";
@@ -586,7 +625,7 @@ static int corr(uint64_t seed, const std::string& tier, const std::string& outdi
             catch (...) { errors.clear(); ans = "err"; }
         }
         sink.count(ans == "err" ? "kw.parse.err" : "kw.parse.ok");
-        sink.emit("deck.kw " + std::string(1, k.st) + " " + (k.raw ? "1" : "0") + " " + k.mn + " " + std::to_string(k.size) + " " +
+        sink.emit("deck.kw " + std::string(1, k.st) + " " + (k.raw ? "1" : "0") + " " + k.mn + " " + std::to_string(targetSize) + " " +
                   (k.alt ? "1" : "0") + " " + (k.dbl ? "1" : "0") + " " + k.schemas + " " + names + " " + hex(sentinel) + " " + hex(text), ans);
     }
 
